@@ -110,6 +110,9 @@ class Feat:
     def __init__(self, bio_feature: Any, index: int) -> None:
         self.type = bio_feature.type
         self.loc = bio_to_loc(bio_feature.location)
+        # "join" / "order" of a multi-part location, None for a single part
+        self.operator = (getattr(bio_feature.location, "operator", None)
+                         if len(bio_feature.location.parts) > 1 else None)
         self.quals = {key: [str(v) for v in values] for key, values in bio_feature.qualifiers.items()}
         self.index = index
         self.bio = bio_feature
@@ -329,6 +332,16 @@ def judge_file(text: str, parent: Parent, rmap: RegionMap, info: dict) -> tuple:
                                    "all_are_parent_features_outside_the_region": outsiders == len(unmatched_file),
                                    "all_cross_origin": all(s["parent_feature_crosses_origin"] for s in sample)})
 
+    # ---- a multi-part feature keeps its operator (join/order): the file is an extract, not a reinterpretation
+    wrong_operator = [(feat, origin) for feat, origin in out.matched
+                      if feat.operator is not None and origin.operator is not None and feat.operator != origin.operator]
+    if wrong_operator:
+        bad("operator", {"count": len(wrong_operator), "features": [
+            {"type": feat.type, "parent_location": loc_text(origin.loc), "parent_operator": origin.operator,
+             "file_location": loc_text(feat.loc), "file_operator": feat.operator,
+             "after_origin": bool(rmap.crosses and max(p[1] for p in origin.loc["parts"]) <= rmap.end),
+             "crosses_origin": loc_crosses(origin.loc)} for feat, origin in wrong_operator[:4]]})
+
     # ---- numbering of the areas in the file (all file features of the type, matched or not)
     by_type = collections.defaultdict(list)
     for feat, origin in out.matched:
@@ -482,6 +495,13 @@ def repaired_record(bio: Any, judgement: FileJudgement, parent: Parent, rmap: Re
 
 # --------------------------------------------------------------------------- the reloaded record against the parent objects
 
+def operator_label(location: Any) -> str:
+    """ "order" for a multi-part location with that operator, "" for join and single parts """
+    if len(location.parts) > 1 and getattr(location, "operator", "join") == "order":
+        return "order"
+    return ""
+
+
 def expected_content(record: Any, region: Any, rmap: RegionMap) -> dict:
     from antismash.common.secmet.features import Prepeptide
 
@@ -491,6 +511,7 @@ def expected_content(record: Any, region: Any, rmap: RegionMap) -> dict:
 
     def inside(feature: Any) -> bool:
         return rmap.inside(ring.from_bio(feature.location)["parts"])
+
 
     protos: dict = {}
     for cand in region.candidate_clusters:
@@ -506,7 +527,8 @@ def expected_content(record: Any, region: Any, rmap: RegionMap) -> dict:
         "cds": sorted([c.get_name(), mapped(c.location), c.translation, sorted(str(f) for f in c.gene_functions)]
                       for c in record.get_cds_features() if inside(c)),
         "genes": sorted([g.get_name(), mapped(g.location)] for g in record.get_genes() if inside(g)),
-        "generics": sorted([f.type, mapped(f.location), sorted(f.notes)] for f in record.get_generics() if inside(f)),
+        "generics": sorted([f.type, mapped(f.location), sorted(f.notes), operator_label(f.location)]
+                           for f in record.get_generics() if inside(f)),
         "pfams": sorted([d.domain_id, mapped(d.location), int(d.protein_location.start), int(d.protein_location.end),
                          d.identifier, d.locus_tag] for d in record.get_pfam_domains() if inside(d)),
         "asdomains": sorted([d.domain_id, mapped(d.location), int(d.protein_location.start),
@@ -548,7 +570,8 @@ def reloaded_content(record: Any) -> dict:
         "cds": sorted([c.get_name(), plain(c.location), c.translation, sorted(str(f) for f in c.gene_functions)]
                       for c in record.get_cds_features()),
         "genes": sorted([g.get_name(), plain(g.location)] for g in record.get_genes()),
-        "generics": sorted([f.type, plain(f.location), sorted(f.notes)] for f in record.get_generics()),
+        "generics": sorted([f.type, plain(f.location), sorted(f.notes), operator_label(f.location)]
+                           for f in record.get_generics()),
         "pfams": sorted([d.domain_id, plain(d.location), int(d.protein_location.start), int(d.protein_location.end),
                          d.identifier, d.locus_tag] for d in record.get_pfam_domains()),
         "asdomains": sorted([d.domain_id, plain(d.location), int(d.protein_location.start),
@@ -659,6 +682,24 @@ def _most_novel(sub: str, spec: dict, violations: list) -> Violation:
     return Violation(clause, detail)
 
 
+def caller_record(record: Any, spec: dict) -> Any:
+    """ the SeqRecord a caller hands to Region.write_to_genbank(record=...): Record.to_biopython(), whose
+        multi-part misc features carry the operator of the spec. On the unchanged tree that is what to_biopython()
+        returns already (nothing is touched); where the record itself cannot hold an "order" feature any more
+        (operator lost on the way in), the caller's SeqRecord still can, and its region file has to follow it """
+    from antismash.common.secmet.locations import CompoundLocation
+    bio = record.to_biopython()
+    wanted = {f"misc {index}": misc["loc"]["operator"] for index, misc in enumerate(spec.get("misc", []))
+              if len(misc["loc"]["parts"]) > 1 and misc["loc"].get("operator")}
+    for feature in bio.features:
+        if feature.type != "misc_feature" or len(feature.location.parts) < 2:
+            continue
+        operator = wanted.get((feature.qualifiers.get("note") or [""])[0])
+        if operator and feature.location.operator != operator:
+            feature.location = CompoundLocation(list(feature.location.parts), operator=operator)
+    return bio
+
+
 def check_region_files(spec: dict, sub: str = "files", beyond_known: bool = False) -> dict:
     try:
         record = build_record(spec)
@@ -683,7 +724,8 @@ def check_region_files(spec: dict, sub: str = "files", beyond_known: bool = Fals
                                                                          "Run date": "2000-01-01 00:00:00"}}
     parent_state = record_state(record.to_biopython())
     parent_text = parent_state["text"]
-    parent = Parent(parent_text)
+    # the reference for the file-level clauses is the record the writer gets: in shared mode the caller's SeqRecord
+    parent = Parent(genbank_text(caller_record(record, spec)) if shared_mode else parent_text)
     violations: list = []
     classes = ["mode_shared" if shared_mode else "mode_fresh", "circular" if spec["circular"] else "linear",
                f"regions_{min(len(regions), 4)}"]
@@ -691,7 +733,7 @@ def check_region_files(spec: dict, sub: str = "files", beyond_known: bool = Fals
 
     tmp = tempfile.mkdtemp(prefix="verif_c12_")
     try:
-        shared = record.to_biopython() if shared_mode else None
+        shared = caller_record(record, spec) if shared_mode else None
         shared_state = record_state(shared) if shared_mode else None
         for index, region in enumerate(regions):
             loc = ring.from_bio(region.location)
@@ -735,6 +777,16 @@ def check_region_files(spec: dict, sub: str = "files", beyond_known: bool = Fals
                 labels.append("region_with_origin_spanning_gene")
             if any(loc_crosses(f.loc) and not rmap.inside(f.loc["parts"]) for f in parent.feats) and crosses:
                 labels.append("origin_spanning_feature_sticking_out")
+            for feat in parent.feats:
+                if feat.operator == "order" and rmap.inside(feat.loc["parts"]):
+                    if not crosses:
+                        labels.append("order_feature_in_plain_region_" + ("circular" if spec["circular"] else "linear"))
+                    elif loc_crosses(feat.loc):
+                        labels.append("order_feature_across_origin")
+                    elif feat.loc["parts"][0][0] >= start:
+                        labels.append("order_feature_before_origin")
+                    else:
+                        labels.append("order_feature_after_origin")
             classes.extend(labels)
             if info["multipart_feature_spans_region"]:
                 labels.append("multipart_feature_spans_region")
@@ -755,7 +807,7 @@ def check_region_files(spec: dict, sub: str = "files", beyond_known: bool = Fals
                 detail.update(info)
                 violations.append(("write_failed", detail))
                 if shared_mode:
-                    shared = record.to_biopython()
+                    shared = caller_record(record, spec)
                     shared_state = record_state(shared)
                 continue
             path = os.path.join(tmp, created[0])
@@ -765,7 +817,7 @@ def check_region_files(spec: dict, sub: str = "files", beyond_known: bool = Fals
                     detail = {"changes": state_changes(shared_state, after)[:8]}
                     detail.update(info)
                     violations.append(("parent_changed_shared", detail))
-                    shared = record.to_biopython()      # later regions are written from an undamaged record
+                    shared = caller_record(record, spec)      # later regions are written from an undamaged record
                     shared_state = record_state(shared)
             # --- the file
             with open(path, encoding="utf-8") as handle:
@@ -911,6 +963,32 @@ def _arc_loc(start: int, size: int, length: int, strand: int = 1) -> dict:
     loc = ring.arc_to_loc(start % length, size, length, strand)
     loc["kind"] = "span" if len(loc["parts"]) > 1 else "simple"
     return loc
+
+
+def _maybe_order(draw, loc: dict) -> dict:
+    """ half of the multi-part non-CDS features get the operator "order" (GenBank order(a..b,c..d)) instead of
+        "join"; the loader keeps it (Feature.from_biopython -> location_from_biopython).
+        Features that cross the origin are included: offset_location's wrapping path used to rebuild the location
+        without the operator (witness: L=200 circular, region [150:200)+[0:50), misc_feature
+        order(191..200,1..5,11..15) -> join(41..55,61..65)); repaired in /repo, see known_findings.json """
+    # an exon lying over the origin is two parts in the record and one in the file of a region over the origin: the
+    # operator can only be carried when two parts or more remain
+    remaining = len(loc["parts"]) - (1 if gen.is_span(loc) and any(part[0] == 0 for part in loc["parts"]) else 0)
+    if remaining > 1 and draw(st.booleans()):
+        loc = dict(loc)
+        loc["operator"] = "order"
+    return loc
+
+
+def _order_loc(draw, low: int, high: int) -> dict:
+    """ a two- or three-part "order" location inside [low:high), parts not touching; needs high - low >= 3 """
+    count = 6 if high - low >= 5 and draw(st.booleans()) else 4
+    cuts = sorted(draw(st.lists(st.integers(low, high), min_size=count, max_size=count, unique=True)))
+    parts = [[cuts[i], cuts[i + 1]] for i in range(0, count, 2)]
+    strand = draw(st.sampled_from([1, -1]))
+    if strand == -1:
+        parts.reverse()
+    return {"parts": parts, "strand": strand, "kind": "multi", "operator": "order"}
 
 
 @st.composite
@@ -1066,15 +1144,42 @@ def record_specs(draw) -> dict:
         gene["name"] = f"g{index}"
         if draw(st.integers(0, 2)) == 0:
             gene["gene_feature"] = True
-    misc = [{"loc": draw(gen.any_location(length, allow_span=circular))}
+    misc = [{"loc": _maybe_order(draw, draw(gen.any_location(length, allow_span=circular)))}
             for _ in range(draw(st.sampled_from([0, 0, 1, 2])))]
     for start, size in area_arcs[:2]:
         if draw(st.integers(0, 3)) == 0:     # and one tied to an area: inside it, or exactly its extent
             inner = draw(gen.any_location(size, allow_span=False)) if draw(st.booleans()) else \
                 {"parts": [[0, size]], "strand": draw(st.sampled_from([1, -1]))}
             if (start + size <= length):
-                misc.append({"loc": {"parts": [[s + start, e + start] for s, e in inner["parts"]],
-                                     "strand": inner["strand"], "kind": "simple"}})
+                misc.append({"loc": _maybe_order(draw, {"parts": [[s + start, e + start] for s, e in inner["parts"]],
+                                                        "strand": inner["strand"], "kind": "simple"})})
+    # "order" features inside an area that spans the origin: before the origin (only sliced by Biopython) and
+    # after it (shifted by the writer), and inside plain areas (linear and circular records)
+    for start, size in area_arcs[:3]:
+        if start + size > length:
+            stretches = [(start, length), (0, start + size - length)]
+        else:
+            stretches = [(start, start + size)]
+        for low, high in stretches:
+            if high - low >= 3 and draw(st.integers(0, 2)) == 0:
+                misc.append({"loc": _order_loc(draw, low, high)})
+        if start + size > length and length - start >= 3 and start + size - length >= 3 and draw(st.integers(0, 1)) == 0:
+            # an "order" feature with parts on both sides of the origin (an intron, or an exon, over the origin)
+            before = _order_loc(draw, start, length)
+            after = _order_loc(draw, 0, start + size - length)
+            strand = before["strand"]
+            first = sorted(before["parts"])[-draw(st.integers(1, 2)):]
+            second = sorted(after["parts"])[:draw(st.integers(1, 2))]
+            if len(first) + len(second) >= 3 and draw(st.booleans()):
+                # the exon itself crosses the origin (the two halves become one part in the file, which still has
+                # two parts or more and therefore an operator)
+                first[-1] = [first[-1][0], length]
+                second[0] = [0, second[0][1]]
+            parts = first + second
+            if first[-1][1] == length and second[0][0] == 0 and len(parts) < 3:
+                continue        # would be a single part in the file: nothing for an operator to join
+            misc.append({"loc": {"parts": parts if strand == 1 else list(reversed(parts)), "strand": strand,
+                                 "kind": "span", "operator": "order"}})
 
     # which genes lie wholly inside an area (prepeptide hosts), which cores they sit in (definition genes)
     area_sets = [ring.arc_bases(start, size, length) for start, size in area_arcs]
@@ -1140,7 +1245,7 @@ def family_cases():
                 length = 600
             for names in combos:
                 for mode in ("fresh", "shared"):
-                    protos, subs, genes, annos = [], [], [], []
+                    protos, subs, genes, annos, misc = [], [], [], [], []
                     for offset, name in zip(offsets, names):
                         for a, b, c1, c2 in patterns[name][0]:
                             protos.append({"loc": _arc_loc(offset + a, b - a, length),
@@ -1159,13 +1264,24 @@ def family_cases():
                                               "leader": 3, "tail": 2})
                             elif gstart == 0:
                                 annos.append({"kind": "pfam", "gene": number, "a": 1, "b": 4})
+                        # two "order" features per group, near its start and near its end (for a group over the
+                        # origin: before / after the origin, depending on the placement), none crossing the origin
+                        for rel_parts, strand in (([(2, 6), (8, 11)], 1), ([(72, 76), (64, 68)], -1)):
+                            parts = []
+                            for a, b in rel_parts:
+                                begin = (offset + a) % length
+                                assert begin + (b - a) <= length
+                                parts.append([begin, begin + (b - a)])
+                            misc.append({"loc": {"parts": parts, "strand": strand, "kind": "multi",
+                                                 "operator": "order"}})
                     # the areas cover every base of a circle and one of them spans the origin: the region is [0:L)
                     extra = {"whole_circle_spanning_plus_whole": [(70, 40), (0, width)],
                              "whole_circle_two_arcs": [(60, 60), (20, 50)]}.get(pos_name, [])
                     for start, size in extra:
                         subs.append({"loc": _arc_loc(start, size, length), "label": f"s{len(subs)}", "side": False})
                     yield {"L": length, "circular": circular, "seed": 1, "genes": genes, "protos": protos,
-                           "subs": subs, "annos": annos, "mode": mode, "family": [pos_name] + list(names)}
+                           "subs": subs, "annos": annos, "misc": misc, "mode": mode,
+                           "family": [pos_name] + list(names)}
 
 
 def run(ctx) -> None:
